@@ -734,3 +734,18 @@ where
 {
     buf.extend_from_slice(&x.to_be_bytes())
 }
+
+/// Verification accessors (cfg(trusttunnel_verif) only): the private reply reader
+#[cfg(trusttunnel_verif)]
+pub(crate) mod verif_access {
+    use super::*;
+
+    /// `read_reply` alone: (REP, bound address, bound port)
+    pub(crate) async fn read_reply<IO>(io: &mut IO) -> Result<(u8, Address<'static>, u16), Error>
+    where
+        IO: AsyncReadExt + Unpin + Send,
+    {
+        let reply = io.read_reply().await?;
+        Ok((reply.code as u8, reply.bound_address, reply.bound_port))
+    }
+}
